@@ -15,32 +15,6 @@ open Std
 
 namespace DD
 
-/-- what C17 proves for a decorated call with arbitrary arguments is what the autoref layer needs -/
-theorem coreKeeps_false_of_total {α : Type} {op : M α}
-    (h : ∀ (ext : Nat → Nat) (m : Mgr), DynInv ext m → DynTotal ext m (op m)) : CoreKeeps false op := by
-  refine ⟨fun m ext hm r m' he => ?_⟩
-  obtain ⟨_, hk⟩ := h ext m hm.dynInv
-  rw [he] at hk
-  refine ⟨⟨hk.inv.inv, hk.inv.order, hk.inv.refs, hk.inv.ctx, hk.inv.sched, by rw [hk.roots]; exact hm.roots,
-    ⟨(fun h => nomatch h), fun _ => hk.inv.nvars⟩⟩, fun u _ hpos => hk.held u (Or.inr hpos)⟩
-
-theorem ite_keepsDyn (g u v : Int) : CoreKeeps false (ite g u v) :=
-  coreKeeps_false_of_total fun ext m hD => ite_total_dyn ext (siftContract ext) m hD g u v
-theorem apply_keepsDyn (op : String) (u : Int) (v w : Option Int) : CoreKeeps false (apply op u v w) :=
-  coreKeeps_false_of_total fun ext m hD => apply_total_dyn ext (siftContract ext) m hD op u v w
-theorem var_keepsDyn (name : String) : CoreKeeps false (var name) :=
-  coreKeeps_false_of_total fun ext m hD => var_total_dyn ext (siftContract ext) m hD name
-theorem quantify_keepsDyn (u : Int) (q : List Key) (fa : Bool) : CoreKeeps false (quantify u q fa) :=
-  coreKeeps_false_of_total fun ext m hD => quantify_total_dyn ext (siftContract ext) m hD u q fa
-theorem letOp_keepsDyn (d : LetArg) (u : Int) : CoreKeeps false (letOp d u) :=
-  coreKeeps_false_of_total fun ext m hD => letOp_total_dyn ext (siftContract ext) m hD d u
-theorem cube_keepsDyn (d : List (String × Bool)) : CoreKeeps false (cube d) :=
-  coreKeeps_false_of_total fun ext m hD => cube_total_dyn ext (siftContract ext) m hD d
-theorem copyBdd_keepsDyn (src : Tbl) (u : Int) : CoreKeeps false (copyBdd src u) :=
-  coreKeeps_false_of_total fun ext m hD => copyBdd_total_dyn ext (siftContract ext) m hD src u
-theorem addExpr_keepsDyn (s : String) : CoreKeeps false (addExpr s) :=
-  coreKeeps_false_of_total fun ext m hD => addExpr_total_dyn ext (siftContract ext) m hD s
-
 /-! the methods, ARBITRARY arguments, reordering possibly enabled -/
 
 theorem aVar_keepsDynTotal (name : String) (h : Nat) : AKeeps false h (aVar name h) :=
@@ -73,6 +47,12 @@ theorem aCopyTo_keepsDynTotal (src : AMgr) (hu h : Nat) : AKeeps false h (aCopyT
   fun a => aCopyTo_keepsAt a src hu h fun u _ => (copyBdd_keepsDyn src.m.tbl u).at a.m
 theorem aCopyBddTo_keepsDynTotal (src : AMgr) (hu h : Nat) : AKeeps false h (aCopyBddTo src hu h) :=
   fun a => aCopyBddTo_keepsAt a src hu h fun u _ => (copyBdd_keepsDyn src.m.tbl u).at a.m
+
+/-- module-level `image` / `preimage` on `Function`s, ARBITRARY arguments (ids not in use,
+`Function`s of another manager, any renaming, any `qvars`), reordering possibly enabled -/
+theorem aImage_keepsDynTotal (pre : Bool) (ht hs : Nat) (rn : List (Key × Key)) (q : List Key)
+    (fa : Bool) (h : Nat) : AKeeps false h (aImage pre ht hs rn q fa h) :=
+  aImage_keeps image_keepsDyn preimage_keepsDyn pre ht hs rn q fa h
 
 /-! ### `find_or_add`, both modes -/
 
